@@ -457,6 +457,11 @@ pub struct Arena {
     mem: Vec<u8>,
 }
 
+/// Interpreter-only mode: hand the library a buffer whose bytes have never been initialised, so that
+/// any read of a byte it did not itself store (and any returned range containing one) is reported by
+/// miri as a read of uninitialised memory.
+pub static UNINIT_BUFFERS: std::sync::atomic::AtomicBool = std::sync::atomic::AtomicBool::new(false);
+
 impl Arena {
     pub fn new() -> Arena {
         Arena {
@@ -471,6 +476,16 @@ impl Arena {
     }
     fn arm(&mut self, len: usize) {
         assert!(len <= CAP);
+        if UNINIT_BUFFERS.load(std::sync::atomic::Ordering::Relaxed) {
+            let n = GUARD + CAP + GUARD;
+            let mut v: Vec<u8> = Vec::with_capacity(n);
+            // deliberately uninitialised (see UNINIT_BUFFERS); only ever read after being written
+            #[allow(clippy::uninit_vec)]
+            unsafe {
+                v.set_len(n)
+            };
+            self.mem = v;
+        }
         for b in &mut self.mem[..GUARD] {
             *b = CANARY;
         }
